@@ -611,12 +611,56 @@ func ruleResetGroupUnconditional(c *Ctx) {
 func init() {
 	register("C02", "Granted timestamps stay below the durably stored time window", func(c *Ctx) {
 		c.Group("C02/sync-above-window", "a new leader starts at least the guard above the loaded window: tested with the operands in order, or just assigned last.Add(guard)", func() { ruleSyncAboveWindow(c) })
+		c.Group("C02/save-critical-section", "the checks against the current time, the window save and the memory write of a reset are one critical section of the TSO mutex", func() { ruleTSOOneCriticalSection(c) })
 		c.Group("C02/save-before-advance", "memory never advances past a window that was not stored first (every CFG path to an advance passes the success edge of saveTimestamp for the same value, or the window guard's 'still enough' edge)", func() { ruleSaveBeforeAdvance(c) })
 		c.Group("C02/window-txn", "the window key has one writer, inside a leader-guarded transaction; the remembered window is updated only after the transaction is known applied", func() { ruleSaveTimestampShape(c) })
 		c.Group("C02/reset-on-failure", "failure to extend the window resets the allocator; an initialised leader always resets on exit", func() { ruleResetOnFailure(c); ruleResetGroupUnconditional(c) })
 		c.Group("C02/wall-clock-helpers", "the window arithmetic is done on wall-clock readings", func() { ruleWallClockHelpers(c) })
 		c.Group("C02/load-max-window", "loading takes the maximum over all stored windows", func() { ruleLoadTimestampMax(c) })
 	})
+}
+
+// ruleTSOOneCriticalSection: a function that writes the in-memory physical time under the TSO mutex does not let
+// the mutex go between taking it and the write: the comparison with the current time and with the stored window
+// that justified the write (and the save made for it) would otherwise be about a state another request has
+// changed since — two overlapping resets each pass their checks, and the later save lowers the stored window
+// below what the earlier one granted.
+func ruleTSOOneCriticalSection(c *Ctx) {
+	P := c.P
+	const tso = "server/tso"
+	rule := c.Prop + "/save-critical-section"
+	lock := P.Field(tso, "tsoObject", "RWMutex")
+	phys := P.Field(tso, "tsoObject", "physical")
+	n := 0
+	for _, fn := range P.Funcs {
+		if P.isScaffold(fn) || fnPkgPath(fn) != modPath+"/"+tso {
+			continue
+		}
+		for _, st := range storesToField(fn, phys) {
+			takes := false
+			for _, b := range fn.Blocks {
+				for _, ins := range b.Instrs {
+					if f, op, d := lockOp(ins); f == lock && op == "Lock" && !d {
+						takes = true
+					}
+				}
+			}
+			if !takes {
+				continue // the caller holds the mutex (checked by the lock rules)
+			}
+			n++
+			target := ssa.Instruction(st)
+			c.need(rule, fn, fmt.Sprintf("write of physical in %s", fnName(fn)), func(x ssa.Instruction) bool { return x == target },
+				[]Ev{&calledEv{name: "the TSO mutex was released on the way", match: func(x ssa.Instruction) bool {
+					f, op, d := lockOp(x)
+					return f == lock && op == "Unlock" && !d
+				}}}, func(h []bool) bool { return !h[0] },
+				"from taking the TSO mutex to the write of the physical time the mutex is not released (checks, save and write are atomic with respect to other requests)")
+		}
+	}
+	if n < 2 {
+		c.Undec(rule, "functions that take the TSO mutex and write the physical time", "at least 2", "", fmt.Sprint(n))
+	}
 }
 
 // ruleSyncAboveWindow: a new leader starts at max(now, last stored window +
